@@ -486,7 +486,9 @@ def _run(scn, d, res, tr):
         # ---- invariants on the durable state right after this run ----
         listed, tail = common.manifest_ids(man)
         files_now = common.read_dir(out)
-        tr.log("state", ri, listed, tail, sorted((k, common.sha(v)) for k, v in files_now.items()))
+        # (names the tool invented - e.g. random scratch files - are logged by content only: they may differ per run)
+        tr.log("state", ri, listed, tail, sorted((k if (k in want or k in stale_names) else "<other>", common.sha(v))
+                                                 for k, v in files_now.items()))
         name_of = {_fname(scn, u): u for u in ids}
         bad = None
         for uid in listed:
@@ -515,14 +517,17 @@ def _run(scn, d, res, tr):
             res.violate("I6_MANIFEST_LOST_ENTRIES", "run %d (%s) removed %s from the manifest (it listed %s before, %s after)"
                         % (ri, sig[-1], lost, listed_before, listed), **facts)
             break
-        # I2: every utterance completed before the interruption is listed, except possibly the last one
-        done_names = [name_of.get(u, u) for u in ended]
-        must = done_names[:-1] if fired else done_names
-        missing = [u for u in must if u not in listed]
-        if missing:
-            res.violate("I2_COMPLETED_NOT_LISTED", "after run %d (%s): feature files of %s were complete before the "
-                        "interruption (%d completed in this run) but the manifest lists only %s" % (
-                            ri, sig[-1], missing, len(ended), listed), **facts)
+        # I2: every utterance completed before the interruption is listed, except possibly the one in flight.
+        # "Completed" is read off the file system, not off the arguments of torch.save (an implementation is free to
+        # write through a scratch name and rename): a feature file that this run created or changed and that now holds
+        # its final bytes. At most one such file may be unlisted after an interruption, none after a normal end.
+        stat_now = common.stat_dir(out)
+        produced = [fn for fn in sorted(want) if files_now.get(fn) == want[fn] and stat_before.get(fn) != stat_now.get(fn)]
+        unlisted = [name_of[fn] for fn in produced if name_of[fn] not in listed]
+        if len(unlisted) > (1 if fired else 0):
+            res.violate("I2_COMPLETED_NOT_LISTED", "after run %d (%s): the feature files of %s were completed by this run "
+                        "but the manifest lists only %s (%d files completed in this run)" % (
+                            ri, sig[-1], unlisted, listed, len(produced)), **facts)
             break
         # I5: utterances listed before this run are neither recomputed nor rewritten
         redo = [u for n, u in ev if n in ("read",) and u in listed_before]
